@@ -15,8 +15,6 @@ import (
 	"log/slog"
 	"math"
 	"math/big"
-	"os"
-	"path/filepath"
 	"strings"
 
 	"oss.terrastruct.com/d2/d2compiler"
@@ -378,17 +376,6 @@ func c24Corpus() []string {
 // shape (or a descendant of one); boundingBox leaves it out.
 const c24KFObjNear = "C24-object-near-ignored"
 
-// The cases of that class are generated only once the finding is listed in known_findings.json (next to
-// build/), so that the check of the unchanged tree is green before and after the integrator lists it.
-func c24FindingListed() bool {
-	exe, err := os.Executable()
-	if err != nil {
-		return false
-	}
-	b, err := os.ReadFile(filepath.Join(filepath.Dir(filepath.Dir(exe)), "known_findings.json"))
-	return err == nil && strings.Contains(string(b), c24KFObjNear)
-}
-
 func c24ObjNearScripts(r *Rng, k int) []string {
 	out := []string{
 		"b\na: {near: b; width: 800; height: 400}\nr: R {near: bottom-right}\n",
@@ -417,10 +404,9 @@ func c24Gen(r *Rng, tier string, n int) []Case {
 		list = append(list, in{s, "corpus"})
 	}
 	nSyn := n / 3
-	if c24FindingListed() {
-		for _, s := range c24ObjNearScripts(r.Fork(), 8) {
-			list = append(list, in{s, "object-near"})
-		}
+	// always generated; these inputs carry the KF id and the driver suppresses them while the id is listed
+	for _, s := range c24ObjNearScripts(r.Fork(), 8) {
+		list = append(list, in{s, "object-near"})
 	}
 	for len(list) < n-nSyn {
 		s, cl := c24Script(r.Fork())
@@ -548,7 +534,6 @@ func c24Synthetic(r *Rng, idx int) (cs Case) {
 	if idx%9 == 0 {
 		nMain = 0
 	}
-	listed := c24FindingListed()
 	var mains []*d2graph.Object
 	for i := 0; i < nMain; i++ {
 		parent := g.Root
@@ -556,7 +541,7 @@ func c24Synthetic(r *Rng, idx int) (cs Case) {
 			parent = mains[r.Intn(len(mains))]
 		}
 		o := c24SynObj(g, parent, fmt.Sprintf("m%d", i), r)
-		if listed && i > 0 && r.Chance(0.12) {
+		if i > 0 && r.Chance(0.12) {
 			o.NearKey, _ = d2parser.ParseKey("m0") // near: <another shape>
 		}
 		mains = append(mains, o)
